@@ -300,11 +300,13 @@ pub fn ipa(cfg: &Cfg, which: usize) -> Verdict {
         ok = false;
     }
     let ser = |e: SF| move |b: &mut Vec<u8>| { e.serialize_uncompressed(b).unwrap(); };
+    // group elements (given by their exponent) in the toy group's uncompressed form
+    let serg = |e: SF| move |b: &mut Vec<u8>| { TA::<1>(e).serialize_uncompressed(b).unwrap(); };
     if let (Some(hc), Some(r)) = (proof.hiding_comm, proof.rand) {
-        let alpha = ro_digest_challenge(&[&ser(cstar), &ser(pt), &ser(vstar), &ser(hc.0)]);
+        let alpha = ro_digest_challenge(&[&serg(cstar), &ser(pt), &ser(vstar), &serg(hc.0)]);
         cstar += alpha * hc.0 - r * vk.s.0;
     }
-    let mut u = ro_digest_challenge(&[&ser(cstar), &ser(pt), &ser(vstar)]);
+    let mut u = ro_digest_challenge(&[&serg(cstar), &ser(pt), &ser(vstar)]);
     let hprime = u * vk.h.0;
     let mut cur = cstar + vstar * hprime;
     let mut us = vec![];
@@ -312,7 +314,7 @@ pub fn ipa(cfg: &Cfg, which: usize) -> Verdict {
         ok = false;
     }
     for (l, r) in proof.l_vec.iter().zip(proof.r_vec.iter()) {
-        u = ro_digest_challenge(&[&ser(u), &ser(l.0), &ser(r.0)]);
+        u = ro_digest_challenge(&[&ser(u), &serg(l.0), &serg(r.0)]);
         us.push(u);
         match u.inverse() {
             Some(ui) => cur += ui * l.0 + u * r.0,
